@@ -43,6 +43,9 @@ def make_cases(ctx, rng):
     for lvl in (16, 17, 19, 22, 3, 13):
         add("rep3", 30000, "compress2", {"level": lvl})
     add("rep3", 60000, "compress2", {"level": 19, "blockSplitter": 1, "minMatch": 3})
+    # lengths above 65535 (long-length escape) through the block splitter
+    for lvl, sz in ((16, 131072), (19, 131072), (19, 200000), (22, 300000), (3, 131072)):
+        add("longlen", sz, "compress2", {"level": lvl, "checksum": 1, "blockSplitter": 1})
     add("rep3", 20000, "compress2", {"strategy": 7, "level": 3, "windowLog": 10})
     for _ in range(n_small):
         add(rng.choice(codec.KINDS), rng.choice(codec.SIZES_SMALL))
